@@ -5,8 +5,7 @@ from checks import histcommon
 
 
 def sig_fn(ref, t, a, tainted):
-    if tainted:
-        return "C14/callback-registrations-survive-recreate"
+    # F6b (registrations of an earlier incarnation survive destroy/create) was repaired; nothing is suppressed any more
     return None
 
 
@@ -46,6 +45,16 @@ def run(chk):
             for o in s:
                 b.append(o)
             blocks.append(b + probe)
+    # (1b) one region, several tenants: sandbox objects created one after the other in the SAME address slot, on a backend that
+    #      does not scrub its own fields when destroyed; lookups by address must find the current tenant only
+    blocks.append("hnew vsbx8 stale|createat 0 5 ok 0|find 5|destroy 0|find 5|createat 1 5 ok 1|find 5|invoke 1 whoami|destroy 1|find 5|createat 0 5 ok 1|find 5".split("|"))
+    rops = [f"createat {i} {r} {ok} {lib}" for i in (0, 1) for r in (4, 5) for ok, lib in (("ok", 0), ("ok", 1), ("fail", 0))] + ["destroy 0", "destroy 1", "find 4", "find 5"]
+    seqs = list(itertools.product(rops, repeat=3)) + rng.sample(list(itertools.product(rops, repeat=5)), 6000 if thorough else 1500)
+    for sq in seqs:
+        b = ["hnew vsbx8 stale"]
+        for o in sq:
+            b += [o] + (["find 4", "find 5"] if not o.startswith("find") else [])
+        blocks.append(b)
     # (2) random histories of length up to 300 over three objects
     ops3 = [o.format(s=s) for s in (0, 1, 2) for o in OPS] + ["cbunreg 0", "cbunreg 1", "cbdestroy 0", "cbmove 0 1", "stat"]
     for be in ("vsbx8", "vsbx2", "noop"):
